@@ -428,11 +428,11 @@ func (fd *Client) Query(ctx context.Context, input *dynamodb.QueryInput, opt ...
 		return nil, &smithy.GenericAPIError{Code: "ValidationException", Message: err.Error()}
 	}
 
-	if input.ScanIndexForward == nil {
-		input.ScanIndexForward = aws.Bool(true)
-	}
+	queryInput := mapDynamoToTypesQueryInput(input, indexName)
+	// ascending order is the default; the request structure belongs to the caller and is not written to
+	queryInput.ScanIndexForward = input.ScanIndexForward == nil || aws.ToBool(input.ScanIndexForward)
 
-	items, lastKey := table.SearchData(mapDynamoToTypesQueryInput(input, indexName))
+	items, lastKey := table.SearchData(queryInput)
 
 	count := int64(len(items))
 
